@@ -45,6 +45,7 @@ type fileModel struct {
 	files map[string]*fileObj
 	trace []traceEvt
 	open  int
+	base  map[string]*fileObj // contents when this model started (after a crash): trace replays start from here
 }
 
 func newFileModel() *fileModel { return &fileModel{files: map[string]*fileObj{}} }
@@ -110,6 +111,11 @@ func (ex *Exec) fsCrash(k int, tear *Term) {
 	tc := ex.tc
 	old := ex.fs
 	nf := newFileModel()
+	for name, f := range old.base {
+		if f.exists {
+			nf.files[name] = &fileObj{name: name, data: &ByteArr{top: f.data.snapshot(), size: f.data.size, ex: ex}, size: f.size, exists: true}
+		}
+	}
 	ex.fs = nf
 	apply := func(e traceEvt, n *Term) {
 		switch e.Kind {
@@ -145,6 +151,7 @@ func (ex *Exec) fsCrash(k int, tear *Term) {
 		}
 	}
 	ex.crashImages = append(ex.crashImages, img)
+	ex.fsSnapshotBase()
 	ex.recordInput(fmt.Sprintf("crash_%d", len(ex.crashImages)-1), "crash", len(ex.crashImages)-1, nil)
 }
 
@@ -196,6 +203,15 @@ func (ex *Exec) fsGetNoTrace(name string) *fileObj {
 		ex.fs.files[name] = f
 	}
 	return f
+}
+
+func (ex *Exec) fsSnapshotBase() {
+	ex.fs.base = map[string]*fileObj{}
+	for name, f := range ex.fs.files {
+		if f.exists {
+			ex.fs.base[name] = &fileObj{name: name, data: &ByteArr{top: f.data.snapshot(), size: f.data.size, ex: ex}, size: f.size, exists: true}
+		}
+	}
 }
 
 func registerFileIntrinsics(reg func(string, intrinsic)) {
